@@ -5,6 +5,12 @@ lines (TAB separated; bits are 0/1 strings, byte strings lower-case hex, '-' = e
         kind  bin | cat | slc                      in-memory object (data = bits; cat: built as a[:off] + a[off:],
                                                    slc: built as a[off:off+len])
               bytes | bytearray | mview            cls(bytes=data, offset=off, length=len)
+              mvH | mvI | mvd | mv2d | mvs2 | mvrev | mmap
+                                                   cls(bytes=<view>, offset=off, length=len) where the view's BYTES are data:
+                                                   memoryview of array('H'/'I'/'d'), 2-D cast, strided [::2], reversed
+                                                   [::-1] view, anonymous mmap (the model sees kind `bytes`)
+              a_bytes | a_bytearray | a_mview | a_mvH | a_mv2d | a_mvs2 | a_array
+                                                   cls(<source>) positional (off = len = None only)
               bio                                  cls(io.BytesIO(data), offset=off, length=len)
               fname | handle                       cls(filename=path, …) / cls(open(path,'rb'), …), file holds data
         off, len  None | int ;  chunk  '-' (tofile as shipped) | override in bits (needs the BITSTRING_VERIF hook)
@@ -19,13 +25,18 @@ lines (TAB separated; bits are 0/1 strings, byte strings lower-case hex, '-' = e
         -> ok <data bits> | eof <data bits left behind when EOFError was raised> | err
   C17 art <dtype> <isz> <bits> <chunk> <fk>        Array.tofile then Array(dtype).fromfile of what was written
         -> ok <data bits> | err
+  C17 hist <target> <bits> <ops> <lsb0>            serialisation history on ONE mutable object: target BitArray | BitStream |
+        Array:<dtype> (mutators act on .data; A.* ops on the Array); ops = `;`-separated in-place mutators; before the
+        first and after every mutator tobytes() / bytes() / .bytes / tofile are taken (rotating order) and must agree with
+        each other and with the object's own padded bits at that moment.  Oracle-only (the model prints `skip`).
+        -> ok <final bits> <final tobytes>
   C17 big <cls> <nbits> <seed> <sink>              real chunk crossing (no hook), digest only; not run through the model
         -> ok <sha1 of written bytes> <byte count>
 No exception class is fixed by the property: every error is plain `err`.
 """
 from harness.common import *
 from harness import extract_C17
-import io, os, tempfile, shutil, atexit, hashlib, itertools, random as _random
+import io, os, tempfile, shutil, atexit, hashlib, itertools, array as _array_mod, mmap as _mmap, random as _random
 
 FUNCTIONAL = True
 
@@ -82,6 +93,7 @@ class _Files:
     """Temp files of one case; all removed on exit from the `with` block."""
     def __init__(self):
         self.paths = []
+        self.closers = []
 
     def new(self, data: bytes | None = None) -> str:
         p = os.path.join(_tmpdir(), "f%d" % next(_SEQ))
@@ -95,6 +107,11 @@ class _Files:
         return self
 
     def __exit__(self, *a):
+        for c in self.closers:
+            try:
+                c.close()
+            except Exception:                                    # noqa: BLE001 (exported buffers may still be alive)
+                pass
         for p in self.paths:
             try:
                 os.unlink(p)
@@ -154,6 +171,42 @@ def _tofile(x, chunk: str, sink: str, files: _Files) -> bytes:
             return f.read()
 
 
+VIEW_KINDS = {"mvH": 2, "mvI": 4, "mvd": 8, "mv2d": 2, "mvs2": 1, "mvrev": 1, "mmap": 1}   # kind -> size granule in bytes
+
+
+def _view(kind: str, raw: bytes, files: _Files):
+    """A bytes-like object of the given kind whose BYTES (memoryview(x).tobytes()) are exactly `raw`."""
+    if kind == "mvH":
+        v = memoryview(_array_mod.array("H", raw))
+    elif kind == "mvI":
+        v = memoryview(_array_mod.array("I", raw))
+    elif kind == "mvd":
+        v = memoryview(_array_mod.array("d", raw))
+    elif kind == "mv2d":
+        v = memoryview(raw).cast("B", shape=[2, len(raw) // 2])
+    elif kind == "mvs2":
+        buf = bytearray(b"\xee" * (2 * len(raw)))
+        buf[::2] = raw
+        v = memoryview(buf)[::2]
+    elif kind == "mvrev":
+        v = memoryview(raw[::-1])[::-1]
+    elif kind == "mmap":
+        m = _mmap.mmap(-1, len(raw))
+        m.write(raw)
+        m.seek(0)
+        files.closers.append(m)
+        assert m[:] == raw
+        return m
+    elif kind == "array":
+        v = _array_mod.array("H" if len(raw) % 2 == 0 else "B", raw)
+        assert v.tobytes() == raw
+        return v
+    else:
+        raise ValueError(kind)
+    assert v.tobytes() == raw, (kind, raw)
+    return v
+
+
 def _build(cls: str, kind: str, data: str, off, ln, files: _Files):
     C = CLASSES[cls]
     if kind == "bin":
@@ -171,6 +224,13 @@ def _build(cls: str, kind: str, data: str, off, ln, files: _Files):
         return C(bytes=bytearray(raw), **kw)
     if kind == "mview":
         return C(bytes=memoryview(raw), **kw)
+    if kind in VIEW_KINDS:
+        return C(bytes=_view(kind, raw, files), **kw)
+    if kind.startswith("a_"):
+        assert off is None and ln is None
+        k = kind[2:]
+        src = raw if k == "bytes" else bytearray(raw) if k == "bytearray" else memoryview(raw) if k == "mview" else _view(k, raw, files)
+        return C(src)
     if kind == "bio":
         return C(io.BytesIO(raw), **kw)
     p = files.new(raw)
@@ -191,7 +251,7 @@ def _array(dt: str, isz: int, bits: str):
     return bitstring.Array(dt, Bits(bin=bits)) if bits else bitstring.Array(dt)
 
 
-_LSB0_FIELD = {"obj": 9, "rt": 7, "arr": 6}                    # position of the lsb0 flag; other ops run in msb0
+_LSB0_FIELD = {"obj": 9, "rt": 7, "arr": 6, "hist": 5}                    # position of the lsb0 flag; other ops run in msb0
 
 
 def _lsb0(f) -> bool:
@@ -355,6 +415,64 @@ def _execute(f, files):
             out = "err"
             extra["exc"] = type(e).__name__
         return out, extra
+    if op == "hist":
+        _, _, target, bits, ops, _m = f
+        b = unwire(bits)
+        arr = None
+        if target.startswith("Array:"):
+            dt = target[6:]
+            with options(lsb0=False):
+                arr = bitstring.Array(dt, Bits(bin=b)) if b else bitstring.Array(dt)
+            x = arr.data
+        else:
+            x = mk(target, b)
+        steps = []
+
+        def observe(label, status, k):
+            nonlocal x
+            if arr is not None:
+                x = arr.data
+            ob = {"op": label, "status": status}
+            order = ["tobytes", "dunder", "prop", "tofile", "atobytes", "atofile"]
+            order = order[k % 4:] + order[:k % 4]
+            for w in order:
+                try:
+                    if w == "tobytes":
+                        ob[w] = hx(x.tobytes())
+                    elif w == "dunder":
+                        ob[w] = hx(bytes(x))
+                    elif w == "prop":
+                        try:
+                            ob[w] = hx(x.bytes)
+                        except bitstring.InterpretError:
+                            ob[w] = "!"
+                    elif w == "tofile":
+                        sk = io.BytesIO()
+                        x.tofile(sk)
+                        ob[w] = hx(sk.getvalue())
+                    elif arr is not None and w == "atobytes":
+                        ob[w] = hx(arr.tobytes())
+                    elif arr is not None and w == "atofile":
+                        sk = io.BytesIO()
+                        arr.tofile(sk)
+                        ob[w] = hx(sk.getvalue())
+                except Exception as e:                           # noqa: BLE001
+                    ob[w] = "EXC " + type(e).__name__
+            ob["bits"] = wire(x.bin)
+            steps.append(ob)
+
+        observe("init", "ok", 0)
+        for k, o in enumerate([t for t in ops.split(";") if t and t != "-"], 1):
+            try:
+                _mutate(x, arr, o)
+                st = "ok"
+            except AssertionError:
+                raise
+            except Exception as e:                               # noqa: BLE001 — a refused mutator is fine: the object
+                st = "exc " + type(e).__name__                   # is observed again whatever happened
+            observe(o, st, k)
+        extra["steps"] = steps
+        return "ok %s %s" % (steps[-1]["bits"], steps[-1].get("tobytes")), extra
     if op == "big":
         _, _, cls, nbits, seed, sink = f
         nbits = int(nbits)
@@ -385,6 +503,93 @@ def _execute(f, files):
         extra["tobytes_sha1"] = hashlib.sha1(x.tobytes()).hexdigest()
         return "ok %s %d" % (h.hexdigest(), cnt), extra
     raise ValueError(op)
+
+
+def _mutate(x, arr, o: str) -> None:
+    """Apply one in-place mutator (wire form `name[:args]`) to the mutable bitstring x (or to the Array for A.* ops)."""
+    name, _, arg = o.partition(":")
+    b = lambda t: ("0b" + t) if t else ""                        # noqa: E731
+    n = len(x)
+    if name == "reverse":
+        x.reverse() if not arg else x.reverse(*map(int, arg.split(",")))
+    elif name == "invert":
+        x.invert() if not arg else x.invert(int(arg))
+    elif name == "append":
+        x.append(b(arg))
+    elif name == "prepend":
+        x.prepend(b(arg))
+    elif name == "iadd":
+        x += b(arg)
+    elif name == "insert":
+        t, pos = arg.split("@")
+        x.insert(b(t), int(pos))
+    elif name == "overwrite":
+        t, pos = arg.split("@")
+        x.overwrite(b(t), int(pos))
+    elif name == "set":
+        v, pos = arg.split(",")
+        x.set(int(v), int(pos))
+    elif name == "setall":
+        x.set(int(arg))
+    elif name == "ror":
+        x.ror(int(arg))
+    elif name == "rol":
+        x.rol(int(arg))
+    elif name == "byteswap":
+        x.byteswap() if not arg else x.byteswap(int(arg))
+    elif name == "shl":
+        x <<= int(arg)
+    elif name == "shr":
+        x >>= int(arg)
+    elif name == "imul":
+        x *= int(arg)
+    elif name == "clear":
+        x.clear()
+    elif name == "setitem":
+        i, v = arg.split("=")
+        x[int(i)] = int(v)
+    elif name == "setslice":
+        sl, t = arg.split("=")
+        a_, b_ = sl.split(",")
+        x[int(a_):int(b_)] = b(t)
+    elif name == "setstep":
+        x[::2] = int(arg)
+    elif name == "del":
+        a_, b_ = arg.split(",")
+        del x[int(a_):int(b_)]
+    elif name == "delitem":
+        del x[int(arg)]
+    elif name == "replace":
+        old, new = arg.split(">")
+        x.replace(b(old), b(new))
+    elif name == "iand0":
+        x &= BitArray(n)
+    elif name == "ior1":
+        x |= ~BitArray(n) if n else BitArray()
+    elif name == "ixor1":
+        x ^= ~BitArray(n) if n else BitArray()
+    elif name == "setuint":
+        x.uint = int(arg) % (1 << n) if n else 0
+    elif name == "sethex":
+        x.hex = arg
+    elif name == "A.reverse":
+        arr.reverse()
+    elif name == "A.byteswap":
+        arr.byteswap()
+    elif name == "A.append":
+        arr.append(bitstring.Array(arr.dtype, Bits(length=arr.dtype.bitlength))[0])
+    elif name == "A.pop":
+        arr.pop()
+    elif name == "A.extend":
+        arr.extend(bitstring.Array(arr.dtype, Bits(length=2 * arr.dtype.bitlength)))
+    elif name == "A.insert":
+        arr.insert(int(arg), bitstring.Array(arr.dtype, Bits(length=arr.dtype.bitlength))[0])
+    elif name == "A.clear":
+        arr.clear()
+    elif name == "A.setdata":
+        arr.data = BitArray(bin=arg)
+    else:
+        raise AssertionError("unknown mutator " + o)
 
 
 def _big_data(nbits: int, seed: int) -> bytes:
@@ -513,6 +718,24 @@ def oracle(line: str, out: str, extra: dict):
         if out != exp:
             return f"expected {exp} (the written bytes read back as whole items), got {out}"
         return _check_after(extra, data, isz)
+    if op == "hist":
+        done = []
+        for st in extra.get("steps", []):
+            done.append(st["op"])
+            bits = unwire(st["bits"])
+            eb = hx(_exp_bytes(bits))
+            want = {"tobytes": eb, "dunder": eb, "tofile": eb, "prop": eb if len(bits) % 8 == 0 else "!"}
+            if "atobytes" in st:
+                want["atobytes"] = want["atofile"] = eb
+            names = {"tobytes": "tobytes()", "dunder": "bytes(s)", "prop": "the bytes property", "tofile": "tofile",
+                     "atobytes": "Array.tobytes()", "atofile": "Array.tofile"}
+            for k, v in want.items():
+                if st.get(k) != v:
+                    return (f"after `{'; '.join(done)}` the object's bits are {st['bits']} but {names[k]} gave {st.get(k)}, "
+                            f"expected {v} (the bits zero-padded to a byte boundary)")
+        if not extra.get("steps"):
+            return "no observations"
+        return None
     if op == "big":
         _, _, cls, nbits, seed, sink = f
         nbits = int(nbits)
@@ -530,8 +753,18 @@ def oracle(line: str, out: str, extra: dict):
     return None
 
 
+def model_line(line: str) -> str:
+    f = line.split(SEP)
+    if f[1] == "obj" and (f[3] in VIEW_KINDS or f[3].startswith("a_")):
+        f[3] = "bytes"              # to the model every bytes-like source is its bytes (a_*: offset = length = None)
+        return SEP.join(f)
+    if f[1] == "hist":
+        return SEP.join(["C17", "big"])                           # oracle-only
+    return line
+
+
 def compare(o: str, m: str, line: str) -> bool:
-    if line.split(SEP)[1] == "big":                               # oracle-only (too large for the model)
+    if line.split(SEP)[1] in ("big", "hist"):                     # oracle-only (too large / not modelled)
         return m == "skip"
     return o == m
 
@@ -539,7 +772,7 @@ def compare(o: str, m: str, line: str) -> bool:
 def nontrivial(line: str) -> bool:
     f = line.split(SEP)
     return {"obj": lambda: f[4] != "-", "rt": lambda: f[3] != "-", "arr": lambda: f[4] != "-",
-            "afrom": lambda: f[5] != "-", "art": lambda: f[4] != "-", "big": lambda: True}.get(f[1], lambda: True)()
+            "afrom": lambda: f[5] != "-", "art": lambda: f[4] != "-", "big": lambda: True, "hist": lambda: f[3] != "-"}.get(f[1], lambda: True)()
 
 
 REGIONS = {}            # no open known deviation (empty-file: fixed a177cac; tofile-lsb0-chunks: fixed 14ceb68)
@@ -641,6 +874,30 @@ def gen(rng, tier: str):
         if ln is not None and (ln < 0 or o + ln > nbits):
             ln = nbits - o
         yield _obj(rng.choice(CLASS_NAMES), rng.choice(BYTE_KINDS), hx(_rbytes(rng, nb)), off, ln, "-", rng.choice("bf"), _mode(rng))
+    # B2. bytes-like sources that are not flat byte strings: the window is the window of the source's BYTES
+    for kind, gran in VIEW_KINDS.items():
+        sizes = [s_ for s_ in ((2, 4) if gran == 2 else (4,) if gran == 4 else (8,) if gran == 8 else (1, 2, 3)) ]
+        for nb in sizes:
+            ws = list(_windows(8 * nb))
+            if len(ws) > 700 and not big:
+                ws = [(None, None), (None, 8 * nb), (0, None), (8 * nb, None)] + rng.sample(ws, 400)
+            for off, ln in ws:
+                yield _obj(rng.choice(CLASS_NAMES), kind, hx(_rbytes(rng, nb)), off, ln, "-", rng.choice("bf"), _mode(rng))
+        for _ in range(400 if big else 60):                       # longer views, windows in the later part
+            nb = gran * rng.randint(2, 12) if gran > 1 else rng.randint(4, 40)
+            nbits = 8 * nb
+            off = rng.choice([None, 0, 3, nbits // 2, nbits // 2 + 5, nbits - 9, nbits - 1, nbits, rng.randint(0, nbits)])
+            o = off or 0
+            ln = rng.choice([None, 0, min(1, nbits - o), nbits - o, max(0, nbits - o - 3), rng.randint(0, nbits - o)])
+            yield _obj(rng.choice(CLASS_NAMES), kind, hx(_rbytes(rng, nb)), off, ln, "-", rng.choice("bf"), _mode(rng))
+    for kind in ("a_bytes", "a_bytearray", "a_mview", "a_mvH", "a_mv2d", "a_mvs2", "a_mvrev", "a_array"):
+        for nb in (0, 1, 2, 3, 4, 6, 8, 16, 34):
+            if kind in ("a_mvH", "a_mv2d") and (nb % 2 or nb == 0):
+                continue
+            for cls in CLASS_NAMES:
+                yield _obj(cls, kind, hx(_rbytes(rng, nb)), None, None, "-", rng.choice("bf"), _mode(rng))
+    # H. serialisation histories on one mutable object: observe, mutate in place, observe again
+    yield from _gen_hist(rng, big)
     # C. the tofile chunk boundary with the hook's override: below / at / above every multiple
     if HOOK:
         plan = [(8, _near(8, 5, 4) + list(range(0, 41))), (64, _near(64, 4, 9)), (1024, _near(1024, 3, 9) + _near(1024, 8, 2)[-5:] + [16387]),
@@ -711,6 +968,62 @@ def gen(rng, tier: str):
         yield SEP.join(["C17", "big", rng.choice(CLASS_NAMES), str(CHUNK + 24 + 5), str(rng.randint(1, 10 ** 6)), "f"])
         if big:
             yield SEP.join(["C17", "big", rng.choice(CLASS_NAMES), str(CHUNK + 8), str(rng.randint(1, 10 ** 6)), "b"])
+
+
+def _rand_mutator(rng, n: int, array_dt=None) -> str:
+    """One in-place mutator in wire form, with arguments drawn for a current length of about n bits."""
+    t = lambda k: rand_bits(rng, k) if k else ""                 # noqa: E731
+    p = lambda: rng.randint(0, max(0, n))                        # noqa: E731
+    a_, b_ = sorted((p(), p()))
+    pool = ["reverse", "reverse", "reverse:%d,%d" % (a_, b_), "invert", "invert:%d" % rng.randint(0, max(0, n - 1)),
+            "append:" + t(rng.randint(1, 9)), "prepend:" + t(rng.randint(1, 9)), "iadd:" + t(rng.randint(1, 9)),
+            "insert:%s@%d" % (t(rng.randint(1, 5)), p()), "overwrite:%s@%d" % (t(rng.randint(1, 5)), p()),
+            "set:%d,%d" % (rng.randint(0, 1), rng.randint(0, max(0, n - 1))), "setall:%d" % rng.randint(0, 1),
+            "ror:%d" % rng.randint(1, 9), "rol:%d" % rng.randint(1, 9), "byteswap", "shl:%d" % rng.randint(1, 9),
+            "shr:%d" % rng.randint(1, 9), "imul:%d" % rng.randint(0, 3), "clear",
+            "setitem:%d=%d" % (rng.randint(0, max(0, n - 1)), rng.randint(0, 1)), "setslice:%d,%d=%s" % (a_, b_, t(rng.randint(0, 6))),
+            "setstep:%d" % rng.randint(0, 1), "del:%d,%d" % (a_, b_), "delitem:%d" % rng.randint(0, max(0, n - 1)),
+            "replace:%s>%s" % (t(rng.randint(1, 2)), t(rng.randint(0, 3))), "iand0", "ior1", "ixor1",
+            "setuint:%d" % rng.getrandbits(max(1, min(n, 60))), "sethex:" + "".join(rng.choice("0123456789abcdef") for _ in range(max(1, n // 4)))]
+    if array_dt is not None:
+        pool += ["A.reverse", "A.reverse", "A.byteswap", "A.append", "A.pop", "A.extend", "A.insert:%d" % rng.randint(0, 3),
+                 "A.setdata:" + t(rng.randint(0, 40))]
+    return rng.choice(pool)
+
+
+ALL_MUTATORS = ["reverse", "reverse:1,6", "invert", "invert:2", "append:101", "prepend:01", "iadd:1", "insert:101@3", "overwrite:11@2",
+                "set:1,3", "setall:1", "ror:3", "rol:2", "byteswap", "shl:3", "shr:2", "imul:2", "imul:0", "clear", "setitem:3=1",
+                "setslice:2,5=101", "setstep:1", "del:2,4", "delitem:0", "replace:1>00", "iand0", "ior1", "ixor1", "setuint:5", "sethex:a5"]
+
+
+def _gen_hist(rng, big: bool):
+    hist = lambda tgt, bits, ops: SEP.join(["C17", "hist", tgt, wire(bits), ";".join(ops) or "-", _mode(rng, 0.2)])   # noqa: E731
+    lengths = [0, 1, 7, 8, 9, 15, 16, 17, 24, 31, 32, 33, 64, 65]
+    # every mutator on its own (observe - mutate - observe), every length, both mutable classes
+    for n in lengths:
+        for m in ALL_MUTATORS:
+            for cls in MUTABLE:
+                yield hist(cls, rand_bits(rng, n) if n else "", [m])
+    # the same mutator twice and mutator pairs (a cache refreshed by the first and missed by the second)
+    for n in (8, 12, 16, 24, 40):
+        for m1 in ALL_MUTATORS:
+            m2 = rng.choice(ALL_MUTATORS)
+            yield hist(rng.choice(MUTABLE), format(rng.getrandbits(n) | 1, "0%db" % n), [m1, m2, m1])
+    # drawn histories
+    for _ in range(6000 if big else 900):
+        n = rng.choice(lengths + [rng.randint(0, 130)])
+        ops = [_rand_mutator(rng, n) for _ in range(rng.randint(2, 6))]
+        yield hist(rng.choice(MUTABLE), rand_bits(rng, n) if n else "", ops)
+    # Array.data and the Array's own mutators; Array.tobytes/tofile are observed as well
+    for isz, dts in DTYPES.items():
+        for dt in dts[:2]:
+            for items in (0, 1, 2, 3, 5):
+                nb = isz * items
+                for m in ["reverse", "A.reverse", "A.byteswap", "invert", "A.append", "A.pop", "append:1", "setslice:0,%d=%s" % (isz, "1" * isz), "A.extend", "clear"]:
+                    yield hist("Array:" + dt, rand_bits(rng, nb) if nb else "", [m])
+            for _ in range(40 if big else 6):
+                nb = isz * rng.randint(0, 6)
+                yield hist("Array:" + dt, rand_bits(rng, nb) if nb else "", [_rand_mutator(rng, nb, dt) for _ in range(rng.randint(2, 5))])
 
 
 def search(rng):
